@@ -476,3 +476,54 @@ def _root(e):
     while isinstance(e, ast.Subscript):
         e = e.value
     return e
+
+
+_run_base = run
+
+
+def run(repo: Repo, rep: Report) -> None:  # noqa: F811
+    _run_base(repo, rep)
+    gm = repo.mod("rdflib.graph")
+    mem = repo.mod("rdflib.plugins.stores.memory")
+    # ------------------------------------------------------------------ (i)
+    rep.rule("C01.i-no-mutation-while-iterating-self",
+             "no Graph method removes from / adds to `self` inside a loop that iterates `self` (or self.triples(...) / self.subjects() ...) lazily: whether that is tolerated depends on "
+             "the store (Memory iterates snapshots, SimpleMemory and persistent stores iterate live structures and raise or skip). The loop iterates a materialised copy, or the "
+             "mutation is delegated to the store in one call", floor=3)
+    LAZY = ("triples", "subjects", "objects", "predicates", "subject_objects", "subject_predicates", "predicate_objects", "quads", "items")
+    nloops = 0
+    for q, f in gm.functions():
+        if not q.startswith(("Graph.", "ConjunctiveGraph.", "Dataset.")):
+            continue
+        for l in own_nodes(f):
+            if not isinstance(l, ast.For):
+                continue
+            it = l.iter
+            lazy_self = norm(it) == "self" or (isinstance(it, ast.Call) and isinstance(it.func, ast.Attribute) and norm(it.func.value) == "self" and it.func.attr in LAZY)
+            if not lazy_self:
+                continue
+            muts = [c for s in l.body for c in ast.walk(s) if isinstance(c, ast.Call) and isinstance(c.func, ast.Attribute) and norm(c.func.value) == "self" and c.func.attr in ("remove", "add", "addN", "set")]
+            nloops += 1
+            rep.ob("C01.i-no-mutation-while-iterating-self", gm, q, "for %s in %s" % (norm(l.target), norm(it)[:40]), not muts,
+                   "read-only loop body" if not muts else
+                   "%s is called while `%s` is being iterated lazily: on a store that iterates its live index (SimpleMemory) this raises `dictionary changed size during iteration` after the first change and leaves the graph half-updated" % (norm(muts[0])[:40], norm(it)[:30]), node=l)
+
+    # ------------------------------------------------------------------ (j)
+    rep.rule("C01.j-len-is-computed-from-the-index",
+             "__len__ of the in-memory stores is computed from the index structures when it is called (iteration / len of an index level / len of a context's triple set). A separately "
+             "maintained counter must be incremented only for triples that were not yet present - SimpleMemory.add has no such test (its index writes are idempotent) - so returning "
+             "a counter attribute that add() bumps unconditionally makes len() exceed what iteration yields after a duplicate add", floor=2)
+    for cls in ("SimpleMemory", "Memory"):
+        f = mem.func(cls + ".__len__")
+        rets = [r for r in own_nodes(f) if isinstance(r, ast.Return) and r.value is not None]
+        for r in rets:
+            v = r.value
+            bare = isinstance(v, ast.Attribute) and isinstance(v.value, ast.Name) and v.value.id == "self"
+            counter = False
+            if bare:
+                attr = v.attr
+                counter = any(isinstance(a, ast.AugAssign) and isinstance(a.target, ast.Attribute) and a.target.attr.endswith(attr.lstrip("_")) or (isinstance(a, ast.AugAssign) and norm(a.target) == norm(v))
+                              for m_ in ("add", "remove") for a in own_nodes(mem.func(cls + "." + m_)))
+            rep.ob("C01.j-len-is-computed-from-the-index", mem, cls + ".__len__", r, not counter,
+                   "derived from the index at call time" if not counter else
+                   "len() returns the counter %s, which add()/remove() adjust with += / -= : adding a triple that is already present counts it again" % norm(v), node=r)
